@@ -4,3 +4,5 @@ import Bridge.ExtAbs
 import Bridge.ScanAbs
 import Bridge.LayerAbs
 import Bridge.Rename
+import Bridge.ScanTree
+import Bridge.PumlRender
